@@ -627,7 +627,7 @@ def U_K_games():
 
 def U_H_games(length=520):
     """one very long dead corridor: the initial state flips a coin between a sure win and a corridor of `length` states
-    (alternately probabilistic and Player 2) that ends in the losing state; after conditioning the corridor is cut off at its
+    (Player 2 only, or alternately probabilistic and Player 2) that ends in the losing state; after conditioning the corridor is cut off at its
     first state and every later state loses its only predecessor, one after the other"""
     games = []
     for variant in (0, 1):
@@ -638,7 +638,7 @@ def U_H_games(length=520):
         rewards = [1]
         for i in range(1, length + 1):
             nxt = i + 1 if i < length else L
-            if (i + variant) % 2 == 0:
+            if variant == 0 or i % 2 == 0:       # variant 0: Player 2 only (Player 2 keeps its transitions, so the cut-off cascades)
                 players.append(P2)
                 tl.append([(ACTIONS[0], nxt)])
             else:
